@@ -266,4 +266,84 @@ theorem loadTriples_good (images : PyVal) (A : List Image)
       simp only [List.cons_append]
       exact (List.Perm.append_left rest htr).trans List.perm_middle
 
+/-! ### what a successful load has filed (documents newer than 1.1: no `src` re-filing) -/
+
+theorem add_ok_cells (s s' : ImgState) (v a : Str) (id : Nat) (img : Image)
+    (h : add s v a id img = (s', .ok ())) : s' = { s with cells := cellsAdd s.cells v a id img } := by
+  simp only [add, addScript, Gen.images_add_script, runSteps, runStep] at h
+  split at h
+  · rename_i s1 h1
+    rw [Prod.mk.injEq] at h1
+    obtain ⟨rfl, _⟩ := h1
+    split at h
+    · rename_i s2 h2
+      rw [Prod.mk.injEq] at h2
+      obtain ⟨rfl, _⟩ := h2
+      split at h
+      · rename_i s3 h3
+        rw [Prod.mk.injEq] at h3
+        obtain ⟨rfl, _⟩ := h3
+        rw [Prod.mk.injEq] at h
+        exact h.1.symm
+      · rw [Prod.mk.injEq] at h; cases h.2
+    · rw [Prod.mk.injEq] at h; cases h.2
+  · rw [Prod.mk.injEq] at h; cases h.2
+
+theorem loadOne_files (ver images : PyVal) (vt : VerT) (hvt : versionTuple ver = .ok vt)
+    (hnew : gateEval Gen.gate_images_Images_deserialize_0 vt = .ok false)
+    (v a : Str) (d : PyVal) (s : ImgState) (n : Nat) (r : ImgState × Nat)
+    (h : loadCell ver images (.str v) (.str a) [d] (s, n) = .ok r) :
+    ∃ img, Image.deserialize ver d = .ok img ∧ r = ({ s with cells := cellsAdd s.cells v a n img }, n + 1) := by
+  unfold loadCell at h
+  obtain ⟨img, h1, h⟩ := bind_ok h
+  obtain ⟨vt', h2, h⟩ := bind_ok h
+  obtain ⟨old, h3, h⟩ := bind_ok h
+  obtain ⟨s1, h4, h⟩ := bind_ok h
+  rw [hvt] at h2; injection h2 with h2; subst h2
+  rw [hnew] at h3; injection h3 with h3; subst h3
+  simp only [loadCell] at h
+  refine ⟨img, h1, ?_⟩
+  simp only [fileLoaded, Bool.false_eq_true, ↓reduceIte, addPy] at h4
+  split at h4
+  · rename_i s2 hadd
+    injection h4 with h4
+    subst h4
+    have h' : (Except.ok (s2, n + 1) : Except Err (ImgState × Nat)) = .ok r := h
+    injection h' with h'
+    rw [← h', add_ok_cells s s2 v a n img hadd]
+  · cases h4
+
+theorem loadTriples_files (ver images : PyVal) (vt : VerT) (hvt : versionTuple ver = .ok vt)
+    (hnew : gateEval Gen.gate_images_Images_deserialize_0 vt = .ok false) :
+    ∀ (ts : List (Str × Str × PyVal)) (s : ImgState) (n : Nat) (r : ImgState × Nat), IdsBelow n s.cells →
+      loadTriples ver images ts (s, n) = .ok r →
+      IdsBelow r.2 r.1.cells ∧ (∀ x ∈ s.cells.all, x ∈ r.1.cells.all)
+        ∧ ∀ t ∈ ts, ∀ img, Image.deserialize ver t.2.2 = .ok img → img ∈ r.1.cells.all := by
+  intro ts
+  induction ts with
+  | nil =>
+    intro s n r hids h
+    simp only [loadTriples, Except.ok.injEq] at h
+    subst h
+    exact ⟨hids, fun _ h => h, fun t ht => by cases ht⟩
+  | cons t rest ih =>
+    intro s n r hids h
+    simp only [loadTriples] at h
+    cases h1 : loadCell ver images (.str t.1) (.str t.2.1) [t.2.2] (s, n) with
+    | error e => rw [h1] at h; cases h
+    | ok r1 =>
+      rw [h1] at h
+      obtain ⟨img, hd, rfl⟩ := loadOne_files ver images vt hvt hnew t.1 t.2.1 t.2.2 s n r1 h1
+      obtain ⟨htr, hids'⟩ := triples_cellsAdd t.1 t.2.1 n img s.cells hids
+      obtain ⟨hb, hmono, hfiles⟩ := ih _ (n + 1) r hids' h
+      have hnew_mem : img ∈ (cellsAdd s.cells t.1 t.2.1 n img).all := by
+        rw [all_eq]
+        exact List.mem_map.mpr ⟨(t.1, t.2.1, img), htr.mem_iff.mpr List.mem_cons_self, rfl⟩
+      refine ⟨hb, fun x hx => hmono x (mem_cellsAdd_old hx), ?_⟩
+      intro t' ht' img' hd'
+      rcases List.mem_cons.mp ht' with rfl | hrest
+      · rw [hd] at hd'; injection hd' with hd'; subst hd'
+        exact hmono _ hnew_mem
+      · exact hfiles t' hrest img' hd'
+
 end PM.Img
